@@ -86,12 +86,13 @@ Proof.
   intros rec e w rd tr depth ro self pc pv addr input gas. cbv zeta. unfold do_delegatecall.
   destruct (depth >? CallCreateDepth); [reflexivity|]. apply finish_call_world.
 Qed.
-Theorem staticcall_failed_reverts : forall rec e w rd tr depth caller addr input gas,
-  let o := do_staticcall rec e w rd tr depth caller addr input gas in
+Theorem staticcall_failed_reverts : forall rec e w rd tr depth ro caller addr input gas,
+  let o := do_staticcall rec e w rd tr depth ro caller addr input gas in
   failed (o_res o) = true -> o_world o = w.
 Proof.
-  intros rec e w rd tr depth caller addr input gas. cbv zeta. unfold do_staticcall.
-  destruct (depth >? CallCreateDepth); [reflexivity|]. apply finish_call_world.
+  intros rec e w rd tr depth ro caller addr input gas. cbv zeta. unfold do_staticcall.
+  destruct (depth >? CallCreateDepth); [reflexivity|].
+  destruct ro; [apply finish_call_world | cbn [set_out_ro o_res o_world]; apply finish_call_world].
 Qed.
 
 (* a failed creation: the world is the one before, or the one before with the creator's nonce incremented *)
